@@ -36,14 +36,15 @@ def modified_cholesky(mat: np.ndarray, max_error: float = 1e-6) -> np.ndarray:
     chol_vecs[0] = np.copy(mat[nu]) / delta_max**0.5
 
     nchol = 0
-    while abs(delta_max) > max_error and (nchol + 1) < nchol_max:
+    while abs(delta_max) > max_error and nchol < nchol_max:
         Mapprox += chol_vecs[nchol] * chol_vecs[nchol]
         delta = diag - Mapprox
         nu = np.argmax(np.abs(delta))
         delta_max = np.abs(delta[nu])
-        R = np.dot(chol_vecs[: nchol + 1, nu], chol_vecs[: nchol + 1, :])
-        chol_vecs[nchol + 1] = (mat[nu] - R) / (delta_max + 1e-10) ** 0.5
         nchol += 1
+        if nchol < nchol_max:
+            R = np.dot(chol_vecs[:nchol, nu], chol_vecs[:nchol, :])
+            chol_vecs[nchol] = (mat[nu] - R) / (delta_max + 1e-10) ** 0.5
 
     return chol_vecs[:nchol]
 
